@@ -228,6 +228,9 @@ impl ReadBackend for Overlay {
     fn location(&self) -> String {
         "overlay".to_string()
     }
+    fn warmup_path(&self, tpe: FileType, id: &Id) -> String {
+        self.inner.warmup_path(tpe, id)
+    }
     fn list_with_size(&self, tpe: FileType) -> RusticResult<Vec<(Id, u32)>> {
         Ok(self
             .inner
